@@ -623,6 +623,12 @@ func c19r3(c *core.Ctx) {
 						zero = true
 					}
 				}
+			case *ast.ExprStmt:
+				if l := appendThroughPointer(m, x); l != nil {
+					if ix, ok := ast.Unparen(l).(*ast.IndexExpr); ok && fieldKeyOf(m, ix.X) == "observerManager.observers" {
+						appendNode = x
+					}
+				}
 			case *ast.IncDecStmt:
 				if fieldKeyOf(m, x.X) == key {
 					if x.Tok == token.INC {
